@@ -98,7 +98,15 @@ func c18r1(c *Ctx) {
 		// (c) on the spine: the Add's success edge cuts every success return; and the constructor's error is checked
 		// (through helpers of the factory: each call of the chain must do so in its own function)
 		okAll := true
+		if r.Table {
+			// registered by the loop over the literal table: the loop visits every element (a range loop), a failing creator
+			// or a failing Add ends in an error return, and nothing but the loop's natural exit leads to success
+			okAll = tableLoopRegistersAll(c.P, r)
+		}
 		for _, l := range r.Chain {
+			if r.Table && l.call == r.Add {
+				continue // judged by the loop rule above
+			}
 			call := l.call
 			pred := func(f Fact) bool { return !f.Lin && f.Pos && f.Call == call && strings.HasPrefix(f.Atom, "ok:") }
 			for _, ret := range returnsOf(l.env.Fn) {
@@ -137,6 +145,77 @@ func c18r1(c *Ctx) {
 	} else {
 		c.Fail(rule, "violation", FuncName(fac), "no Remove / Replace on the container", c.P.Pos(fac.Pos()), bad)
 	}
+}
+
+// tableLoopRegistersAll: in the function that contains the Add of a table-driven registration: (1) the Add lies in a loop
+// whose counter is the hidden counter of a `range` (φ[-1, +1], continues while counter+1 < len); (2) from the loop header
+// in an iteration, the back edge is not reachable without the Add having succeeded (a failing creator / Add returns an
+// error; no `continue`); (3) every success return is reached through the loop's exit edge.
+func tableLoopRegistersAll(p *Prog, r Registration) bool {
+	add, ok := r.Add.(ssa.Instruction)
+	if !ok {
+		return false
+	}
+	fn := add.Parent()
+	var lvl *Env
+	for _, l := range r.Chain {
+		if l.call == r.Add {
+			lvl = l.env
+		}
+	}
+	if lvl == nil {
+		return false
+	}
+	// the range header: a block with a φ [-1, φ+1] and an If on (φ+1) < len
+	var hdr *ssa.BasicBlock
+	for _, b := range fn.Blocks {
+		for _, in := range b.Instrs {
+			ph, ok := in.(*ssa.Phi)
+			if !ok {
+				break
+			}
+			start, step := false, false
+			for _, ed := range ph.Edges {
+				if k, ok := constInt(ed); ok && k == -1 {
+					start = true
+				} else if bo, ok := ed.(*ssa.BinOp); ok && bo.Op == token.ADD && bo.X == ssa.Value(ph) {
+					if k, ok := constInt(bo.Y); ok && k == 1 {
+						step = true
+					}
+				}
+			}
+			if start && step && b.Dominates(add.Block()) {
+				hdr = b
+			}
+		}
+	}
+	if hdr == nil || len(hdr.Succs) != 2 {
+		return false
+	}
+	body, exit := hdr.Succs[0], hdr.Succs[1]
+	if !body.Dominates(add.Block()) {
+		return false
+	}
+	// (2) back edge only through the successful Add
+	okAdd := map[edge]bool{}
+	for ed, fs := range lvl.EdgeFacts() {
+		for _, f := range fs {
+			if !f.Lin && f.Pos && f.Call == r.Add && strings.HasPrefix(f.Atom, "ok:") {
+				okAdd[ed] = true
+			}
+		}
+	}
+	if len(okAdd) == 0 || reachableAvoiding(body, hdr, okAdd) {
+		return false
+	}
+	// (3) success only through the loop exit
+	cut := map[edge]bool{{hdr, exit}: true}
+	for _, ret := range returnsOf(fn) {
+		if isSuccessReturn(ret) && reachableAvoiding(fn.Blocks[0], ret.Block(), cut) {
+			return false
+		}
+	}
+	return true
 }
 
 // flagMethodWrites: constants written to the flag by method m (following calls to other methods of the same type)
